@@ -122,7 +122,18 @@ def model_check(name, case, rec):
     tag = ""
     if e["nstate"]:
         tag = "@history" if not np.array_equal(sv, sv0) else "@virgin"
-    rec.close("A=dP/dF" + tag, float(np.abs(np.broadcast_to(A, Afd.shape) - Afd).max()) / sc, tol, {"params": case["params"]})
+    dev = float(np.abs(np.broadcast_to(A, Afd.shape) - Afd).max()) / sc
+    if e["nstate"] and tol < dev < 50 * tol:
+        # history models switch branches (running maxima, |.|, one switch per direction of a micro-sphere): a difference stencil
+        # that straddles a switch is not a derivative. Decided by the stencil itself: if a ten times smaller step gives another
+        # quotient, a documented non-smooth point is nearby and the comparison is not made; a genuine tangent error shows the
+        # same deviation at both steps
+        Afd2 = fd(P_of, F, h=1e-7)
+        if float(np.abs(Afd2 - Afd).max()) / sc > 0.25 * dev:
+            rec.label("non-smooth-point-inside-the-difference-stencil")
+            dev = None
+    if dev is not None:
+        rec.close("A=dP/dF" + tag, dev, tol, {"params": case["params"]})
     if Qc is not None and tag == "@history":
         # coaxial history: directional derivatives along the three stretch directions (the perturbed states stay coaxial)
         Ab = np.broadcast_to(A, (3, 3, 3, 3) + batch)
